@@ -56,7 +56,7 @@ class C03(RunProp):
                 c = gen.gen_nested_gate_loop(rng)
                 c["kind"] = "loop"
             elif r < 0.75:
-                c = gen.gen_gated_dag(rng, max_nodes=8 if tier == "quick" else 12, p_closed=rng.choice([0.2, 0.6, 1.0]))
+                c = gen.gen_gated_dag(rng, max_nodes=8 if tier == "quick" else 12, p_closed=rng.choice([0.2, 0.6, 1.0]), allow_gate_signal=True)
                 c["kind"] = "dag"
             else:
                 c = gen.gen_loop(rng)
